@@ -7,6 +7,10 @@ From SK Require Import model.C03_Model model.C05_Model proof.C05_Proof proof.C05
 Import ListNotations.
 Local Open Scope Z_scope.
 
+Section WithThr.
+Context {TH : Thr}.
+
+
 Section PrepEquiv.
   Variable sg : N -> N.
   Hypothesis Hs : inj sg.
@@ -96,3 +100,5 @@ Proof.
   intros Hprep Hflag. unfold pipeline. rewrite (prepare_relabel sg Hs inv T p Hprep Hflag), Hprep.
   apply results_all_relabel; assumption.
 Qed.
+
+End WithThr.
